@@ -65,6 +65,7 @@ def tokValue (tok : String) : Option Value :=
   match tok.toList with
   | 's' :: r | 'o' :: r => (hexDecode (String.ofList r)).map Value.str
   | 'c' :: r => (hexDecode (String.ofList r)).map Value.custom
+  | 'm' :: r => (hexDecode (String.ofList r)).map fun b => Value.custom (strBytes "memo:" ++ b)
   | ['z'] => some .none
   | 'i' :: r | 'u' :: r | 'f' :: r =>
     (parseDec (strBytes (String.ofList r))).bind fun d =>
